@@ -15,6 +15,7 @@
  * probes: '*' (all ranks) or a comma separated list of ranks.
  */
 #include "common.h"
+#include <unistd.h>
 #include <integer.h>
 #include <rational.h>
 #include <dyadic_rational.h>
@@ -450,11 +451,21 @@ static void op_Q(void) {
   free_specs(sp, n);
 }
 
+static unsigned long ncases;
+/* a long run (the exhaustive tier feeds 262144 cases to one process) slows down badly with ASan's default
+   256 MB quarantine of freed blocks; 16 MB still catches use-after-free of these small short-lived objects.
+   (Defaults only: ASAN_OPTIONS of the environment still applies on top.) */
+const char* __asan_default_options(void) { return "quarantine_size_mb=16:malloc_context_size=5"; }
 int main(void) {
   pool_init();
   while (next_case()) {
     if (vntok == 0) { end_case(); continue; }
     ncand = 0;
+    alarm(10);   /* watchdog: a case takes milliseconds; a hang (e.g. a non-terminating binary search) kills the
+                    driver, which the pipeline reports as a crash on this case */
+    /* comparisons refine the isolating intervals of the pool's algebraic numbers in place (ever longer dyadic
+       end points, ever slower comparisons): rebuild the pool now and then */
+    if (++ncases % 500 == 0) { pool_done(); pool_init(); }
     if (is_op("B")) op_B();
     else if (is_op("C")) op_C();
     else if (is_op("Q")) op_Q();
@@ -462,6 +473,7 @@ int main(void) {
     else printf("UNKNOWN-OP");
     end_case();
   }
+  alarm(0);
   pool_done();
   free(sb); free(vline);
   return 0;
